@@ -63,6 +63,8 @@ def _determine_file_type(file_name):
     with open(file_name, 'rb') as fi:
         # read the first 12 bytes of the file
         header = fi.read(12)
+    if len(header) != 12:
+        return None
     parts = struct.unpack('>IBBBBI', header)
     if parts == (1, 192, 192, 18, 18, 360):
         return 'VOL'
@@ -1209,7 +1211,7 @@ class PALSARDetails(object):
         elif os.path.isdir(file_name):
             the_dir = file_name
         else:
-            raise ValueError('path {} is neither a directory or file'.format(file_name))
+            raise SarpyIOError('path {} is neither a directory or file'.format(file_name))
         self._file_name = the_dir
 
         # find the files of each type
